@@ -368,6 +368,42 @@ theorem mask24 (x : Nat) : x &&& ((2^64 - 1) / 2^40) = x % 2 ^ (8 * Generated.ha
   have : ((2:Nat)^64 - 1) / 2^40 = 2^24 - 1 := by decide
   rw [this, Nat.and_two_pow_sub_one_eq_mod]; rfl
 
+/-- the shared bucket part of all three formats: in a file `header ‖ bucket table ‖ bucket bodies` shorter than
+    2^48 bytes, the 16-byte record `i` of the table is the header of bucket `i` with an exact 48-bit offset, and
+    reading `stride` bytes at `offset + idx * stride` yields stored entry `idx` -/
+theorem bucket_reads (Hd : Bytes) (vs : Nat) (bs : List BucketA) (F : Bytes)
+    (hF : F = (Hd ++ tableFrom vs bs (Hd.length + 16 * bs.length)) ++ bs.flatMap (bucketBody vs))
+    (hsize : F.length < 2^48) (i : Nat) (hi : i < bs.length) :
+    ∃ off, off < 2^48 ∧ rd F.toArray (Hd.length + 16 * i) 16 = some (bucketHeader bs[i] off) ∧
+      ∀ idx (h : idx < bs[i].entries.size),
+        rd F.toArray (off + idx * (Generated.hashSize + vs)) (Generated.hashSize + vs)
+          = some (entryBytes vs bs[i].entries[idx]) := by
+  obtain ⟨T, hT⟩ : ∃ T, T = tableFrom vs bs (Hd.length + 16 * bs.length) := ⟨_, rfl⟩
+  obtain ⟨Bd, hBd⟩ : ∃ Bd, Bd = bs.flatMap (bucketBody vs) := ⟨_, rfl⟩
+  rw [← hT, ← hBd] at hF
+  have hTlen : T.length = 16 * bs.length := by rw [hT, tableFrom_length]
+  have hFlen : F.length = Hd.length + T.length + Bd.length := by
+    rw [hF, List.length_append, List.length_append]
+  obtain ⟨hfit, hbody⟩ := bodies_slice vs bs i hi
+  rw [← hBd] at hfit hbody
+  refine ⟨Hd.length + 16 * bs.length + bodyOff vs bs i, by omega, ?_, ?_⟩
+  · rw [rd_toArray, if_pos (by omega), hF]
+    rw [slice_append_left (Hd ++ T) Bd _ _ (by rw [List.length_append]; omega), slice_append_right,
+      hT, tableFrom_slice _ _ _ i hi]
+  · intro idx hidx
+    have hle : idx * (Generated.hashSize + vs) + (Generated.hashSize + vs)
+        ≤ bs[i].entries.size * (Generated.hashSize + vs) := by
+      have := Nat.mul_le_mul_right (Generated.hashSize + vs) (Nat.succ_le_of_lt hidx)
+      rwa [Nat.succ_mul] at this
+    have e1 : Hd.length + 16 * bs.length + bodyOff vs bs i + idx * (Generated.hashSize + vs)
+        = (Hd ++ T).length + (bodyOff vs bs i + idx * (Generated.hashSize + vs)) := by
+      rw [List.length_append, hTlen]; omega
+    rw [rd_toArray, if_pos (by omega), hF, e1, slice_append_right]
+    have := slice_slice Bd (bodyOff vs bs i) (bs[i].entries.size * (Generated.hashSize + vs))
+      (idx * (Generated.hashSize + vs)) (Generated.hashSize + vs) hle
+    rw [hbody, bucketBody_entry _ _ _ hidx] at this
+    rw [← this]
+
 /-- **`Lookup` over the bytes `Seal` wrote answers exactly what the abstract reader answers**, for every key
     (present, absent, or hashing outside the bucket table) -/
 theorem lookupB_encode (hf : HF) (ix : IndexA) (ok : EncOk ix) (hv : ValsOk ix) (key : Bytes) :
@@ -375,13 +411,9 @@ theorem lookupB_encode (hf : HF) (ix : IndexA) (ok : EncOk ix) (hv : ValsOk ix) 
         ⟨ix.valueSize, ix.numBuckets, (headerBytes ix.valueSize ix.numBuckets ix.metaKVs).length, ix.metaKVs⟩ key
       = lookupA hf ix key := by
   obtain ⟨Hd, hHd⟩ : ∃ Hd, Hd = headerBytes ix.valueSize ix.numBuckets ix.metaKVs := ⟨_, rfl⟩
-  obtain ⟨T, hT⟩ : ∃ T, T = tableFrom ix.valueSize ix.buckets (Hd.length + Generated.bucketHdrLen * ix.numBuckets) := ⟨_, rfl⟩
-  obtain ⟨Bd, hBd⟩ : ∃ Bd, Bd = ix.buckets.flatMap (bucketBody ix.valueSize) := ⟨_, rfl⟩
-  have hF : encode ix = (Hd ++ T) ++ Bd := by rw [encode, ← hHd, ← hT, ← hBd]
-  have hTlen : T.length = 16 * ix.numBuckets := by rw [hT, tableFrom_length, ok.len]
-  have hFlen : (encode ix).length = Hd.length + T.length + Bd.length := by
-    rw [hF, List.length_append, List.length_append]
-  have hsize := ok.size
+  have hF : encode ix = (Hd ++ tableFrom ix.valueSize ix.buckets (Hd.length + 16 * ix.buckets.length))
+      ++ ix.buckets.flatMap (bucketBody ix.valueSize) := by
+    rw [encode, ← hHd, ok.len]; rfl
   rw [← hHd]
   unfold lookupB lookupA
   simp only []
@@ -393,28 +425,14 @@ theorem lookupB_encode (hf : HF) (ix : IndexA) (ok : EncOk ix) (hv : ValsOk ix) 
     · have hil : i < ix.buckets.length := by rw [ok.len]; exact hi
       rw [if_neg (by omega), List.getElem?_eq_getElem hil]
       simp only []
+      obtain ⟨off, hoff48, hrdH, hrdE⟩ := bucket_reads Hd ix.valueSize ix.buckets (encode ix) hF ok.size i hil
       obtain ⟨b, hbdef⟩ : ∃ b, b = ix.buckets[i] := ⟨_, rfl⟩
-      rw [← hbdef]
+      rw [← hbdef] at hrdH hrdE ⊢
       have hmem : b ∈ ix.buckets := hbdef ▸ List.getElem_mem hil
-      have hnonce := ok.nonce b hmem
-      have hcount := ok.count b hmem
-      obtain ⟨hfit, hbody⟩ := bodies_slice ix.valueSize ix.buckets i hil
-      rw [← hbdef, ← hBd] at hfit hbody
-      obtain ⟨off, hoff⟩ : ∃ off, off = Hd.length + Generated.bucketHdrLen * ix.numBuckets + bodyOff ix.valueSize ix.buckets i :=
-        ⟨_, rfl⟩
-      have hoffv : off = Hd.length + T.length + bodyOff ix.valueSize ix.buckets i := by
-        rw [hoff, hTlen, bucketHdrLen_eq]
-      have hoff48 : off < 2^48 := by omega
-      -- the bucket header
-      have hrdH : rd (encode ix).toArray (Hd.length + Generated.bucketHdrLen * i) Generated.bucketHdrLen
-          = some (bucketHeader b off) := by
-        rw [bucketHdrLen_eq, rd_toArray, if_pos (by omega), hF]
-        rw [slice_append_left (Hd ++ T) Bd _ _ (by rw [List.length_append]; omega), slice_append_right,
-          hT, tableFrom_slice _ _ _ i hil, ← hbdef, hoff]
       have hstr := stride_eq ix.valueSize ok.vs_le
       have hvs : ix.valueSize % 256 = ix.valueSize := by
         have := ok.vs_le; rw [hashSize_eq] at this; omega
-      -- one stored entry
+      -- one stored entry, as `Lookup` decodes it
       have hget : ∀ idx (h : idx < b.entries.size),
           (if idx * (Generated.hashSize + ix.valueSize) + (Generated.hashSize + ix.valueSize)
                 > b.entries.size * (Generated.hashSize + ix.valueSize) then none
@@ -427,20 +445,14 @@ theorem lookupB_encode (hf : HF) (ix : IndexA) (ok : EncOk ix) (hv : ValsOk ix) 
             ≤ b.entries.size * (Generated.hashSize + ix.valueSize) := by
           have := Nat.mul_le_mul_right (Generated.hashSize + ix.valueSize) (Nat.succ_le_of_lt hidx)
           rwa [Nat.succ_mul] at this
-        rw [if_neg (by omega)]
-        have e1 : off + idx * (Generated.hashSize + ix.valueSize)
-            = (Hd ++ T).length + (bodyOff ix.valueSize ix.buckets i + idx * (Generated.hashSize + ix.valueSize)) := by
-          rw [hoffv, List.length_append]; omega
-        rw [rd_toArray, if_pos (by omega), hF, e1, slice_append_right]
-        have := slice_slice Bd (bodyOff ix.valueSize ix.buckets i) (b.entries.size * (Generated.hashSize + ix.valueSize))
-          (idx * (Generated.hashSize + ix.valueSize)) (Generated.hashSize + ix.valueSize) hle
-        rw [hbody, bucketBody_entry _ _ _ hidx] at this
-        rw [← this]
+        rw [if_neg (by omega), hrdE idx hidx]
         simp only []
         obtain ⟨d1, d2⟩ := entryBytes_decode ix.valueSize b.entries[idx] (ok.hash b hmem idx hidx) (hv b hmem idx hidx)
         rw [d1, d2]
-      simp only [hrdH, bucketHeader_nonce b off hnonce, bucketHeader_count b off hcount, bucketHeader_hashLen,
-        bucketHeader_off b off hoff48, hstr, hvs]
+      have hrdH' : rd (encode ix).toArray (Hd.length + Generated.bucketHdrLen * i) Generated.bucketHdrLen
+          = some (bucketHeader b off) := hrdH
+      simp only [hrdH', bucketHeader_nonce b off (ok.nonce b hmem), bucketHeader_count b off (ok.count b hmem),
+        bucketHeader_hashLen, bucketHeader_off b off hoff48, hstr, hvs]
       have hsh : (64 + 256 - 3 * 8 % 256) % 256 = 40 := by decide
       simp only [hsh]
       rw [if_neg (by omega), mask24]
@@ -640,23 +652,13 @@ theorem encode_length_lt (hf : HF) (vs declared : Nat) (m : List (Bytes × Bytes
     Nat.mul_le_mul hsum (by omega)
   omega
 
-/-- **a built index satisfies every limit of the format**, under size hypotheses on the inputs only -/
-theorem encOk_of_build (hf : HF) (vs declared : Nat) (m : List (Bytes × Bytes)) (kvs : List KV) (ix : IndexA)
-    (h : buildA hf vs declared m kvs = .ok ix) (hm : MetaOk m) (hvs : vs ≤ 255 - Generated.hashSize)
-    (hnb : numBucketsFor declared < 2^32) (hn : kvs.length < 2^32) : EncOk ix := by
-  obtain ⟨e1, e2, e3, _, _⟩ := buildA_ok hf vs declared m kvs ix h
-  obtain ⟨hlen, hbk⟩ := bucket_mem_of_build hf vs declared m kvs ix h
-  have hpar : ¬ (vs = 0 ∨ vs > 255 ∨ declared = 0) := by
-    intro hbad
-    unfold buildA at h
-    rw [if_pos hbad] at h
-    cases h
-  have hnbpos : 0 < numBucketsFor declared := by
-    unfold numBucketsFor
-    simp only [Generated.targetEntriesPerBucket]
-    omega
-  refine ⟨by omega, by omega, by omega, by omega, hlen, by rw [e3]; exact hm.1, by rw [e3]; exact hm.2, ?_, ?_, ?_,
-    encode_length_lt hf vs declared m kvs ix h hm (by rw [hashSize_eq] at hvs; omega) hnb hn⟩
+/-- per-bucket limits of a built index: nonces and counts fit `uint32`, stored hashes fit `HashSize` bytes -/
+theorem buckets_of_build (hf : HF) (vs declared : Nat) (m : List (Bytes × Bytes)) (kvs : List KV) (ix : IndexA)
+    (h : buildA hf vs declared m kvs = .ok ix) (hn : kvs.length < 2^32) :
+    (∀ b ∈ ix.buckets, b.nonce < 2^32) ∧ (∀ b ∈ ix.buckets, b.entries.size < 2^32) ∧
+    (∀ b ∈ ix.buckets, ∀ i (h : i < b.entries.size), b.entries[i].1 < 2^24) := by
+  obtain ⟨_, hbk⟩ := bucket_mem_of_build hf vs declared m kvs ix h
+  refine ⟨?_, ?_, ?_⟩
   · intro b hb
     obtain ⟨i, _, hs⟩ := hbk b hb
     have := (sealBucket_entries hf _ b hs).1
@@ -672,6 +674,30 @@ theorem encOk_of_build (hf : HF) (vs declared : Nat) (m : List (Bytes × Bytes))
     obtain ⟨kv, _, he⟩ := (sealBucket_entries hf _ b hs).2.2 j hj
     rw [he]
     exact entry_lt hf _ _
+
+/-- what `buildA` guarantees about its parameters -/
+theorem params_of_build (hf : HF) (vs declared : Nat) (m : List (Bytes × Bytes)) (kvs : List KV) (ix : IndexA)
+    (h : buildA hf vs declared m kvs = .ok ix) : 0 < vs ∧ vs ≤ 255 ∧ 0 < numBucketsFor declared := by
+  have hpar : ¬ (vs = 0 ∨ vs > 255 ∨ declared = 0) := by
+    intro hbad
+    unfold buildA at h
+    rw [if_pos hbad] at h
+    cases h
+  refine ⟨by omega, by omega, ?_⟩
+  unfold numBucketsFor
+  simp only [Generated.targetEntriesPerBucket]
+  omega
+
+/-- **a built index satisfies every limit of the format**, under size hypotheses on the inputs only -/
+theorem encOk_of_build (hf : HF) (vs declared : Nat) (m : List (Bytes × Bytes)) (kvs : List KV) (ix : IndexA)
+    (h : buildA hf vs declared m kvs = .ok ix) (hm : MetaOk m) (hvs : vs ≤ 255 - Generated.hashSize)
+    (hnb : numBucketsFor declared < 2^32) (hn : kvs.length < 2^32) : EncOk ix := by
+  obtain ⟨e1, e2, e3, _, _⟩ := buildA_ok hf vs declared m kvs ix h
+  obtain ⟨hlen, _⟩ := bucket_mem_of_build hf vs declared m kvs ix h
+  obtain ⟨p1, p2, p3⟩ := params_of_build hf vs declared m kvs ix h
+  obtain ⟨b1, b2, b3⟩ := buckets_of_build hf vs declared m kvs ix h hn
+  exact ⟨by omega, by omega, by omega, by omega, hlen, by rw [e3]; exact hm.1, by rw [e3]; exact hm.2, b1, b2, b3,
+    encode_length_lt hf vs declared m kvs ix h hm (by rw [hashSize_eq] at hvs; omega) hnb hn⟩
 
 /-- when only `valueSize`-byte values are inserted, only such values are stored -/
 theorem valsOk_of_build (hf : HF) (vs declared : Nat) (m : List (Bytes × Bytes)) (kvs : List KV) (ix : IndexA)
